@@ -111,6 +111,10 @@ func (r Ret) Err(ctx context.Context) error {
 		return fmt.Errorf("downstream call: %w", context.Canceled)
 	case "wrapped-deadline":
 		return &url.Error{Op: "Post", URL: "http://downstream.test/", Err: context.DeadlineExceeded}
+	case "joined-canceled": // several errors reported together (errors.Join), one of them the context's
+		return errors.Join(errors.New("flushing the cache failed"), context.Canceled)
+	case "joined-deadline":
+		return fmt.Errorf("%w; %w", errors.New("partial result discarded"), context.DeadlineExceeded)
 	}
 	panic("bad Ret.How " + r.How)
 }
@@ -799,11 +803,19 @@ func (r *Run) Exec(cc grpc.ClientConnInterface, parent context.Context, watchdog
 		}
 		sort.Strings(keys)
 		for i, k := range keys {
-			if k != runKey && i%2 == 1 {
+			switch {
+			case k != runKey && i%2 == 1 && len(md[k]) >= 2 && len(k)%2 == 0:
+				// one key fed from both sides (an interceptor appending to what the application set): the values
+				// arrive in one list, the application's first
+				base[k] = md[k][:1:1]
+				for _, v := range md[k][1:] {
+					appended = append(appended, k, v)
+				}
+			case k != runKey && i%2 == 1:
 				for _, v := range md[k] {
 					appended = append(appended, k, v)
 				}
-			} else {
+			default:
 				base[k] = md[k]
 			}
 		}
